@@ -189,13 +189,13 @@ static carquet_status_t encode_levels(
         (uint8_t)((rle_size >> 16) & 0xFF),
         (uint8_t)((rle_size >> 24) & 0xFF)
     };
-    carquet_buffer_append(output, len_bytes, 4);
-
+    status = carquet_buffer_append(output, len_bytes, 4);
     /* Append the RLE-encoded data */
-    carquet_buffer_append(output, rle_buffer.data, rle_buffer.size);
+    if (status == CARQUET_OK) {
+        status = carquet_buffer_append(output, rle_buffer.data, rle_buffer.size);
+    }
     carquet_buffer_destroy(&rle_buffer);
-
-    return CARQUET_OK;
+    return status;
 }
 
 /* ============================================================================
